@@ -1,6 +1,6 @@
 """C10 — section layout and flattened copy: bounded-write, ordered-insertion and overflow-exit clauses
 (DESIGN.md section 3 / C10)."""
-from lib import cfg, core
+from lib import cfg, core, relocrules
 from lib.linear import Sym, Lin
 from lib.must import Must
 
@@ -123,6 +123,7 @@ def run(chk):
         st = m.before(w) or frozenset()
         chk.ob(R4, "relocate_to_base|shrink#%d" % k, ("addrtab-is-last",) in st, loc=rb.loc(w),
                detail="the address table is shrunk without having tested that it is the last section in layout order")
+    relocrules.written_buffer_sized(chk, rb)
 
     # ------------------------------------------------------------------ C10.e layout walks use the layout order
     R5 = "R-LAYOUT-ORDER"
